@@ -84,7 +84,13 @@ func NewTrustStoreFromPEMFile(pemFilePath string, strict bool) (TrustStore, erro
 func NewTrustStoreFromPEMBytes(pemBytes []byte, strict bool) (TrustStore, error) {
 	var certs TrustStore
 
-	err := pemx.ReadPEM(pemBytes, certs.addEntry(strict))
+	if err := pemx.ReadPEM(pemBytes, certs.addEntry(strict)); err != nil {
+		return nil, err
+	}
 
-	return certs, err
+	if len(certs) == 0 {
+		return nil, errorchain.NewWithMessage(heimdall.ErrConfiguration, "no certificates present in the pem file")
+	}
+
+	return certs, nil
 }
